@@ -188,7 +188,11 @@ def real_parse(text, prev=None, fresh=False):
         pass
   LAST_PREV[0] = _HIST['prev']
   try:
-    gin.parse_config('gvsyn.gvsyn_probe.p = ' + text)
+    if _HIST['n'] % 3 == 1 and '\n' not in text.strip():
+      # the same binding written as the member of a block: nothing about the value grammar depends on the form
+      gin.parse_config('gvsyn.gvsyn_probe:\n  p = ' + text.strip() + '\n')
+    else:
+      gin.parse_config('gvsyn.gvsyn_probe.p = ' + text)
     _HIST['prev'] = text
     return 'ok', config.query_parameter('gvsyn.gvsyn_probe.p')
   except (SyntaxError, tokenize.TokenError) as e:
